@@ -867,6 +867,14 @@ func (vc *VC) binop(fr *Frame, st *State, op token.Token, a, b Val, ta, tb, tr t
 			return tNot(tEq(x, y))
 		}
 	}
+	// slices can only be compared with nil: nil-ness is "no backing array"
+	if isSliceT(ta) && (op == token.EQL || op == token.NEQ) {
+		eq := tEq(mk("(sl-ref "+x.S+")", sortRef), mk("(sl-ref "+y.S+")", sortRef))
+		if op == token.NEQ {
+			return tNot(eq)
+		}
+		return eq
+	}
 	// generic equality on other sorts (interfaces, structs, arrays)
 	switch op {
 	case token.EQL:
